@@ -465,6 +465,31 @@ func TestC01_BridgeConservation(t *testing.T) {
 				log = append(log, fmt.Sprintf("executedClaim(n=%d,batch %d,height %d,%d/%d votes)", skyNonce, bt.BatchNonce, height, okc, n))
 				check(t, "executedClaim")
 			},
+			// all validators report a batch as executed and, before the block ends, its timeout passes as well: the one
+			// end-of-block run has both the attested execution and the timeout of the same batch on its hands
+			"executedAndTimedOutInOneBlock": func(t *rapid.T) {
+				batches, _ := k.GetOutgoingTxBatches(b.Ctx())
+				if len(batches) == 0 {
+					t.Skip("no batch")
+				}
+				bt := batches[rapid.IntRange(0, len(batches)-1).Draw(t, "batch")]
+				skyNonce++
+				okc := 0
+				for _, v := range c.Vals {
+					if b.Tx(&skywaytypes.MsgBatchSendToRemoteClaim{Metadata: chain.MD(v.Actor), Orchestrator: v.Addr.String(), EventNonce: skyNonce, SkywayNonce: skyNonce, EthBlockHeight: 1000 + skyNonce, BatchNonce: bt.BatchNonce,
+						TokenContract: bt.TokenContract.GetAddress().Hex(), ChainReferenceId: c01Chain, CompassId: "compass-1"}) == nil {
+						okc++
+					}
+				}
+				if okc == 0 {
+					skyNonce--
+				} else {
+					claims[skyNonce] = claimRec{kind: "executed", batch: bt.BatchNonce, height: 1000 + skyNonce}
+				}
+				b.PassTime(11 * time.Minute)
+				log = append(log, fmt.Sprintf("executedClaim(n=%d,batch %d,%d/%d votes)+passTime(11m)", skyNonce, bt.BatchNonce, okc, len(c.Vals)))
+				endBlock(t)
+			},
 			"depositClaim": func(t *rapid.T) {
 				tk := toks[rapid.IntRange(0, len(toks)-1).Draw(t, "token")]
 				erc20 := tk.erc20
